@@ -8,11 +8,12 @@ iterate, a dense reference solution, and judges the reported status against the 
 the solver produced.
 
 Findings (standard mechanism: executed and judged on every run, matched against KNOWN_FINDINGS.json by signature):
-  c07-edge:F3  'success' judged from the stale initial defect when the defect computation is skipped
-               (default skip_defect_calc, min_iter >= max_iter): the true residual violates the tolerances
   c07-edge:F7  (double-precision stream) FGMRES divides by the norm of the new Arnoldi vector without a happy-breakdown
                test: on a system whose Krylov space is smaller than krylov_dim (e.g. the identity) it returns 'aborted'
                with a NaN iterate
+  (F-C07-3, 'success' judged from the stale initial defect when the defect computation is skipped (default
+  skip_defect_calc, min_iter >= max_iter), is fixed in /repo (8aa081eb5): such a run now returns max_iter; its input
+  stays in the corpus as a regression line.)
   (F-C07-6, BiCGStab applying the preconditioner before _set_initial_defect so that an early 'aborted' kept the previous
   solve's counters, is fixed in /repo (3d5803c40); its input stays in the corpus as a regression line.)
   (F-C07-2, BiCGStab's half-step test returning 'success' before min_iter iterations, is fixed in /repo (784169477);
@@ -103,7 +104,7 @@ class Cfg:
         return d > self.div_abs or d > self.div_rel * d0
 
 
-def judge_run(cfg, defects, statuses, exhausted_ok=True):
+def judge_run(cfg, defects, statuses, exhausted_ok=True, computed=None):
     """defects: list of Fraction | None (None = non-finite), the value the solver *saw* in iteration k (k = 0 initial);
     statuses: reported status codes, one per consumed defect.  Returns None or a reason string."""
     if not statuses:
@@ -136,7 +137,9 @@ def judge_run(cfg, defects, statuses, exhausted_ok=True):
             elif k < cfg.min_iter:
                 exp = 1
             elif cfg.converged(d, d0):
-                exp = 2
+                # a 'success' must rest on a defect computed in this iteration; a converged-looking stale defect
+                # (skip_defect_calc with min_iter >= max_iter) is reported as max_iter (fix of finding c07-edge:F3)
+                exp = 2 if (computed is None or computed(k)) else 5
             elif k >= cfg.max_iter:
                 exp = 5
             else:
@@ -273,7 +276,7 @@ def oracle_ctl(case, out):
             seen.append(ds[k])
         else:
             seen.append(seen[-1])
-    why = judge_run(cfg, seen, sts)
+    why = judge_run(cfg, seen, sts, computed=(lambda k: variant == 1 or cfg.computes_defect(k)))
     if why:
         return why
     # all defects are consumed unless a terminal status was reached
@@ -837,12 +840,12 @@ def oracle_solve(case, out):
         # status against the limits and the defects produced
         if st == 3:
             statuses = [1] * (it + 1)
-            why = judge_run(cfg, seen, statuses)
+            why = judge_run(cfg, seen, statuses, computed=comp)
             if why:
                 return tag + "before the preconditioner failure: " + why
         elif half_exit:
             # BiCGStab half step: direct is_diverged / is_converged test (max_iter / stagnation are not tested there)
-            why = judge_run(cfg, seen[:-1], [1] * it) if it >= 1 else None
+            why = judge_run(cfg, seen[:-1], [1] * it, computed=comp) if it >= 1 else None
             if why:
                 return tag + why
             dh = seen[-1]
@@ -854,10 +857,10 @@ def oracle_solve(case, out):
                 return tag + "half-step 'success' after %d iteration(s) although min_iter = %d" % (it, cfg.min_iter)
         else:
             statuses = [1] * it + [st]
-            why = judge_run(cfg, seen, statuses, exhausted_ok=False)
+            why = judge_run(cfg, seen, statuses, exhausted_ok=False, computed=comp)
             if why and halfk and st in (2, 4) and it >= 1 and not comp(it):
                 # a half-step exit whose defect happens to equal the stale stored one
-                why = judge_run(cfg, seen[:-1], [1] * it)
+                why = judge_run(cfg, seen[:-1], [1] * it, computed=comp)
                 dh = r["d1"]
                 if not why and st == 4 and not cfg.diverged(dh, seen[0]):
                     why = "half-step 'diverged' but the defect is within the divergence limits"
@@ -890,11 +893,11 @@ def oracle_solve(case, out):
             if st == 4 and not (true_res > cfg.div_abs or true_res > cfg.div_rel * d0_true):
                 return tag + "'diverged' but the true residual is within the divergence limits"
         else:
-            # fixed-iteration mode with skipped defect computation: the status is judged from the stale initial defect
-            if st == 2 and not (true_res <= cfg.tol_abs and (true_res <= cfg.tol_rel * d0_true or true_res <= cfg.tol_abs_low)):
-                edge = edge or F3_MSG % (k, it, fs(true_res), fs(r["d1"]))
-            else:
-                bump(STATS["input_classes"], "skipped-defect-final")
+            # fixed-iteration mode with skipped defect computation: no claim about the residual is possible, and none
+            # is made: 'success' is never returned without a computed defect (fix of finding c07-edge:F3)
+            if st == 2:
+                return tag + "'success' returned although the defect of the last iteration was not computed"
+            bump(STATS["input_classes"], "skipped-defect-final")
         if st == 2 and it == 0 and r["x"] != xs:
             return tag + "iterate changed although no iteration was performed"
         # constrained dofs are never touched when the filter is respected by the preconditioner
@@ -1096,10 +1099,6 @@ def signature(case, out, why):
 F7_MSG = "[c07-edge:F7] solve %d (double): FGMRES does not handle the happy breakdown (Arnoldi vector of norm 0 when the " \
          "Krylov space is exhausted): division by (nearly) zero, 'aborted'/'diverged' with a non-finite or huge iterate on a " \
          "nonsingular system"
-F3_MSG = "[c07-edge:F3] solve %d: 'success' after %d iteration(s) with skipped defect computation (skip_defect_calc, " \
-         "min_iter >= max_iter): the true residual %s of the returned iterate violates the tolerances; the status was " \
-         "judged from the stale stored defect %s"
-
 def leak_probes():
     """Deterministic sessions (every tier, every seed) on one Richardson object, A = diag(1/100, a2), omega = 1:
     a PREVIOUS solve that ends in each terminal status and leaves a non-zero stagnation counter / iteration count,
@@ -1152,7 +1151,7 @@ CORPUS = [
     "solve bicgstab 3 4 -1 0 -2 4 -1 0 -2 4 unit 1 1 sor 3/4 1/1000 1000000000 0 1000000000 1000000000000 19/20 0 6 0 1 1 1 c 1 5 1 1 2 3 0",
     "solve rich 3 4 -1 0 -1 4 -1 0 -1 4 none jac 1/2 1/100 1000000000 0 1000000000 1000000000000 19/20 0 20 0 1 1 1 a 0 0 0 1 2 3 0",
     "solve pmr 2 2 1 1 3 none mat 1/2 0 0 1/3 0 1/100 1000000000 0 1000000000 1000000000000 19/20 0 5 0 1 1 2 a 9 9 1 2 0 c 1 1 1 2 2",
-    # Richardson with a diverging damping parameter and a fixed iteration count: open finding c07-edge:F3
+    # Richardson with a diverging damping parameter and a fixed iteration count: finding F3, fixed in /repo 8aa081eb5 (regression line, now max_iter)
     "solve rich 1 1 none none 1 1000000000 0 1000000000 1000000000000 19/20 2 2 0 1 3 1 a 0 1 0",
     # BiCGStab half-step success before min_iter: finding F2, fixed in /repo 784169477 (regression line)
     "solve bicgstab 1 2 none none 1/2 1000000000 0 1000000000 1000000000000 19/20 3 9 0 1 1 1 a 0 1 0",
